@@ -77,6 +77,24 @@ CHAIN = ("verify_basin", "_assert_measurement_identifier",
          "load_dataset")
 
 
+#: (referrer identifier, basin identifier, relation) – one representative
+#: per way two identifiers can be related
+ID_PAIRS = (
+    ("2024-M7-ab12", "2024-M7-ab12", "equal"),
+    ("2024-M7-ab12", "2024-M7", "basin is a proper prefix"),
+    ("2024-M7-ab12", "ab12", "basin is a proper suffix"),
+    ("2024-M7-ab12", "M7", "basin is an infix"),
+    ("2024-M7-ab12", "zz9", "unrelated"),
+    ("2024-M7", "2024-M7-ab12", "referrer is a proper prefix of the basin"),
+    ("ab12", "2024-M7-ab12", "referrer is a proper suffix of the basin"),
+    ("M7", "2024-M7-ab12", "referrer is an infix of the basin"),
+    ("2024-M7-AB12", "2024-m7-ab12", "equal up to case"),
+    ("2024-M7-ab12", "", "empty basin identifier"),
+    ("", "2024-M7", "empty referrer identifier"),
+    ("", "", "both empty"),
+)
+
+
 def is_key(e, var, key):
     return (isinstance(e, ast.Subscript) and is_name(e.value, var)
             and const_str(e.slice) == key)
@@ -840,31 +858,10 @@ def _check_get_dicts(ctx, repo, rel, q, f):
 def r143(ctx, repo, sites):
     vb = repo.func(FB, "Basin.verify_basin")
     REF = "self.measurement_identifier"
-    BAS = {"self.get_measurement_identifier()",
-           "self.ds.get_measurement_identifier()"}
-
-    def role(e):
-        t = txt(e)
-        if t == REF:
-            return "referrer"
-        if t in BAS:
-            return "basin"
-        if isinstance(e, ast.Name):
-            v = single_assign(vb, e.id)
-            if v is not None:
-                return role(v)
-        return None
-
-    def op_of(fn):
-        d = dotted(fn)
-        if d in ("str.__eq__", "operator.eq"):
-            return "eq"
-        if d == "str.startswith":
-            return "startswith"
-        if isinstance(fn, ast.Lambda) and isinstance(
-                fn.body, ast.Compare) and isinstance(fn.body.ops[0], ast.Eq):
-            return "eq"
-        return None
+    BAS = ("self.get_measurement_identifier()",
+           "self.ds.get_measurement_identifier()")
+    BUILTIN = {"str", "operator", "len", "bool", "self", "True", "False",
+               "None"}
 
     def applicable(node, mapping):
         """may the statement run when self.mapping == mapping?"""
@@ -878,71 +875,83 @@ def r143(ctx, repo, sites):
                 pass
         return True
 
-    def laws(value, mapping):
-        """[(op, role of receiver, role of argument)]"""
-        if isinstance(value, ast.IfExp) and "mapping" in txt(value.test):
-            br = value.body if fold(value.test, {"self.mapping": mapping},
-                                    "mapping test") else value.orelse
-            return laws(br, mapping)
-        if isinstance(value, ast.Compare) and len(value.ops) == 1 \
-                and isinstance(value.ops[0], ast.Eq):
-            return [("eq", role(value.left), role(value.comparators[0]))]
-        if isinstance(value, ast.Call):
-            f = value.func
-            if isinstance(f, ast.Name):
-                out = []
-                for n in walk(vb):
-                    if isinstance(n, ast.Assign) and len(
-                            n.targets) == 1 and is_name(
-                            n.targets[0], f.id) and applicable(n, mapping):
-                        v = n.value
-                        while isinstance(v, ast.IfExp) and "mapping" in txt(
-                                v.test):
-                            v = v.body if fold(
-                                v.test, {"self.mapping": mapping},
-                                "mapping test") else v.orelse
-                        o = op_of(v)
-                        if o is None:
-                            raise AnalysisError(
-                                f"verify_basin: verifier `{txt(n.value)}` "
-                                f"not recognised")
-                        out.append((o, role(value.args[0]),
-                                    role(value.args[1])))
-                return out
-            if op_of(f) and len(value.args) == 2:
-                return [(op_of(f), role(value.args[0]), role(value.args[1]))]
-            if isinstance(f, ast.Attribute) and f.attr == "startswith" \
-                    and len(value.args) == 1:
-                return [("startswith", role(f.value), role(value.args[0]))]
-        raise AnalysisError(f"verify_basin: identifier comparison "
-                            f"`{short(value, 60)}` not recognised")
+    def free_names(expr, env):
+        bound = set()
+        for x in ast.walk(expr):
+            if isinstance(x, ast.Lambda):
+                bound |= {a.arg for a in x.args.args}
+        return sorted({x.id for x in ast.walk(expr)
+                       if isinstance(x, ast.Name) and x.id not in BUILTIN
+                       and x.id not in bound and x.id not in env})
+
+    def outcomes(expr, env, mapping, depth=0):
+        """all values `expr` can take (one per choice of the applicable
+        definitions of the local names it uses)"""
+        if depth > 4:
+            raise Unknown("definitions nested too deeply")
+        names = free_names(expr, env)
+        if not names:
+            return [Mini(env).ev(expr)]
+        nm = names[0]
+        defs = [n.value for n in walk(vb) if isinstance(n, ast.Assign)
+                and len(n.targets) == 1 and is_name(n.targets[0], nm)
+                and applicable(n, mapping)]
+        if not defs:
+            raise Unknown(f"{nm} (no definition)")
+        out = []
+        for d in defs:
+            for val in outcomes(d, env, mapping, depth + 1):
+                out += outcomes(expr, {**env, nm: val}, mapping, depth)
+        return out
     verdicts = [n for n in walk(vb) if isinstance(n, ast.Assign) and any(
         is_self_attr(t, "_measurement_identifier_verified")
         for t in n.targets) and not isinstance(n.value, ast.Constant)]
     if not verdicts:
         raise AnalysisError("verify_basin: identifier verdict lost")
-    for mapping, want in (("same", "eq"), ("basinmap1", "startswith")):
-        got = []
+    if not any(REF in txt(n.value) or any(
+            x in txt(n.value) for x in BAS) or free_names(n.value, {})
+            for n in verdicts):
+        raise AnalysisError("verify_basin: the verdict does not depend on "
+                            "the identifiers")
+    n_eval = 0
+    for mapping, law, lawtxt in (
+            ("same", lambda r, b: r == b, "referrer == basin"),
+            ("basinmap1", lambda r, b: r.startswith(b),
+             "referrer.startswith(basin)")):
+        bad = []
+        seen = 0
         for n in verdicts:
-            if applicable(n, mapping):
-                got += laws(n.value, mapping)
-        if want == "eq":
-            ok = bool(got) and all(
-                o == "eq" and {a, b} == {"referrer", "basin"}
-                for o, a, b in got)
-        else:
-            ok = bool(got) and all(
-                o == "startswith" and a == "referrer" and b == "basin"
-                for o, a, b in got)
-        ctx.ob("R14.3", ok,
-               (f"mapping {mapping!r}: identifiers must be equal"
-                if want == "eq" else
-                f"mapping {mapping!r}: the referrer's identifier must start "
-                f"with the basin's") if ok else
-               f"mapping {mapping!r}: verify_basin applies {got}, expected "
-               + ("equality of referrer and basin identifier" if want == "eq"
-                  else "referrer.startswith(basin)"),
+            if not applicable(n, mapping):
+                continue
+            for ref, bas, what in ID_PAIRS:
+                env = {"self.mapping": mapping, REF: ref}
+                env.update({k: bas for k in BAS})
+                try:
+                    got = outcomes(n.value, env, mapping)
+                except Unknown as u:
+                    raise AnalysisError(
+                        f"verify_basin: identifier comparison "
+                        f"`{short(n.value, 60)}` cannot be evaluated "
+                        f"(`{u}`)")
+                seen += 1
+                for g in got:
+                    n_eval += 1
+                    if bool(g) != bool(law(ref, bas)):
+                        bad.append((what, ref, bas, bool(g)))
+        if not seen:
+            raise AnalysisError(f"verify_basin: no identifier comparison "
+                                f"applies to mapping {mapping!r}")
+        ctx.ob("R14.3", not bad,
+               f"mapping {mapping!r}: the verifier equals `{lawtxt}` on "
+               f"{len(ID_PAIRS)} identifier pairs" if not bad else
+               f"mapping {mapping!r}: referrer {bad[0][1]!r} / basin "
+               f"{bad[0][2]!r} ({bad[0][0]}) is "
+               f"{'accepted' if bad[0][3] else 'rejected'}, the law "
+               f"`{lawtxt}` says "
+               f"{'reject' if bad[0][3] else 'accept'} "
+               f"({len(bad)} of {len(ID_PAIRS)} pairs differ)",
                node=verdicts[0], label=f"identifier law [{mapping}]")
+    ctx.stat("R14.3 verifier evaluations", n_eval)
     # verdict returned
     carriers = {n.targets[0].id for n in walk(vb) if isinstance(n, ast.Assign)
                 and len(n.targets) == 1 and isinstance(n.targets[0], ast.Name)
@@ -1108,22 +1117,26 @@ def r143(ctx, repo, sites):
         raise AnalysisError("store_basin: basin_map parameter lost")
     bad = []
     marker = object()
-    for ref, bas, rel_ in (("ab", "ab", "equal"), ("ab-x", "ab", "extends"),
-                           ("ab", "ab-x", "shorter"), ("ab", "cd", "other")):
+    n_cases = 0
+    for ref, bas, rel_ in ID_PAIRS:
+        if not ref:
+            continue      # store_basin skips the check without identifier
         for mapped in (False, True):
             env = {cur: ref, oth: bas, mapname: marker if mapped else None}
             rejected = bool(fold(tests[0].test, env,
                                  "store_basin identifier test"))
-            want_ok = rel_ == "equal" or (rel_ == "extends" and mapped)
+            want_ok = ref == bas or (mapped and ref.startswith(bas))
+            n_cases += 1
             if rejected == want_ok:
-                bad.append((rel_, "mapped" if mapped else "same",
+                bad.append((rel_, ref, bas, "mapped" if mapped else "same",
                             "rejected" if rejected else "accepted"))
     ctx.ob("R14.3", not bad,
            "store_basin(verify=True) accepts equal identifiers, and a basin "
            "identifier that is a prefix of the referrer's for mapped basins "
-           "only (8 cases)" if not bad else
-           f"store_basin(verify=True) disagrees with Basin.verify_basin: "
-           f"{bad[0]}", node=tests[0], label="writer identifier law")
+           f"only ({n_cases} cases)" if not bad else
+           f"store_basin(verify=True) disagrees with the identifier law: "
+           f"{bad[0]} ({len(bad)} of {n_cases} cases)", node=tests[0],
+           label="writer identifier law")
     kw = None
     for n in walk(sites.func):
         if isinstance(n, ast.Dict):
@@ -1443,6 +1456,32 @@ MUTANTS = [
     ("mapped basins need equal identifiers", FB,
      ("                        verifier = str.startswith\n",
       "                        verifier = str.__eq__\n"), "R14.3"),
+    ("mapped basins accept the basin id anywhere in the referrer's", FB,
+     ("                        verifier = str.startswith\n",
+      "                        verifier = str.__contains__\n"), "R14.3"),
+    ("mapped basins accept a suffix", FB,
+     ("                        verifier = str.startswith\n",
+      "                        verifier = str.endswith\n"), "R14.3"),
+    ("mapped verifier lambda with swapped roles", FB,
+     ("                        verifier = str.startswith\n",
+      "                        verifier = lambda a, b: b.startswith(a)\n"),
+     "R14.3"),
+    ("mapped verifier compares the wrong slice", FB,
+     ("                        verifier = str.startswith\n",
+      "                        verifier = lambda a, b: a[-len(b):] == b\n"),
+     "R14.3"),
+    ("unmapped verifier ignores case", FB,
+     ("                        verifier = str.__eq__\n",
+      "                        verifier = lambda a, b: a.lower() == b.lower()\n"),
+     "R14.3"),
+    ("equality arguments both the referrer", FB,
+     ("                        self.measurement_identifier,\n"
+      "                        self.get_measurement_identifier()\n",
+      "                        self.measurement_identifier,\n"
+      "                        self.measurement_identifier\n"), "R14.3"),
+    ("writer: basin id accepted anywhere in the referrer's", WRITER,
+     ("and cur_id.startswith(ds_id))):", "and ds_id in cur_id)):"),
+     "R14.3"),
     ("unmapped basins accept prefixes", FB,
      ("                        verifier = str.__eq__\n",
       "                        verifier = str.startswith\n"), "R14.3"),
@@ -1546,6 +1585,22 @@ TWINS = [
      (_VERIFIER,
       '                    verifier = (str.__eq__ if self.mapping == "same"\n'
       '                                else str.startswith)\n')),
+    ("mapped verifier as lambda", FB,
+     ("                        verifier = str.startswith\n",
+      "                        verifier = lambda a, b: a.startswith(b)\n")),
+    ("mapped verifier as slice comparison", FB,
+     ("                        verifier = str.startswith\n",
+      "                        verifier = lambda a, b: a[:len(b)] == b\n")),
+    ("verdict as direct comparison", FB,
+     ("                    self._measurement_identifier_verified = verifier(\n"
+      "                        self.measurement_identifier,\n"
+      "                        self.get_measurement_identifier()\n"
+      "                    )\n",
+      "                    bn_id = self.get_measurement_identifier()\n"
+      "                    self._measurement_identifier_verified = bool(\n"
+      "                        self.measurement_identifier == bn_id\n"
+      "                        if self.mapping == \"same\" else\n"
+      "                        self.measurement_identifier.startswith(bn_id))\n")),
     ("bare except", CORE,
      ("                except BaseException:\n", "                except:\n")),
     ("Basin.ds installs through a local name", FB,
